@@ -291,7 +291,7 @@ func corpus() []corpusApp {
 		}, []engine.Config{{Language: sp.CfgLang}})
 	}
 	for depth := 0; depth <= 2; depth++ {
-		for _, kind := range []string{"G0", "G1", "A0", "A1", "F0", "K0"} {
+		for _, kind := range []string{"G0", "G1", "A0", "A1", "A2", "F0", "K0"} {
 			sp := c20Spec{depth, kind, depth == 1}
 			add(fmt.Sprintf("end-%d-%s", depth, kind), func() *app.App { return c20App(sp) }, []engine.Config{{}})
 		}
